@@ -15,6 +15,21 @@ Theorem C17_multshift_lt : forall h n, 0 <= h < 2 ^ 64 -> 0 < n < 2 ^ 64 ->
 Proof. exact Leaves_Proofs.multshift_lt. Qed.
 Print Assumptions C17_multshift_lt.
 
+(* the other two generated leaves: pvGetStepCount is in 0..3 (0 below 64 items: no interpolation jump), pvCompare is the sign of
+   the comparison *)
+Theorem C17_stepcount_range : forall n, 0 <= Gen_Leaves.pvGetStepCount n <= 3.
+Proof. exact Leaves_Proofs.stepcount_range. Qed.
+Print Assumptions C17_stepcount_range.
+
+Theorem C17_stepcount_small : forall n, n < 64 -> Gen_Leaves.pvGetStepCount n = 0.
+Proof. exact Leaves_Proofs.stepcount_small. Qed.
+Print Assumptions C17_stepcount_small.
+
+Theorem C17_compare_spec : forall a b,
+  (a < b -> Gen_Leaves.pvCompare a b = -1) /\ (a = b -> Gen_Leaves.pvCompare a b = 0) /\ (b < a -> Gen_Leaves.pvCompare a b = 1).
+Proof. exact Leaves_Proofs.compare_spec. Qed.
+Print Assumptions C17_compare_spec.
+
 (* it is an under-approximation, not the exact floor (documented, harmless: only a probe position) *)
 Theorem C17_multshift_not_exact :
   exists h n, 0 <= h < 2 ^ 64 /\ 0 < n < 2 ^ 64 /\ Gen_Leaves.pvMultShift h n < (h * n) / 2 ^ 64.
